@@ -166,6 +166,7 @@ type Engine struct {
 	initBusy  map[*ssa.Package]bool
 
 	redirects  map[string]*ssa.Function
+	resolved   map[*ssa.Function]*calleeRes
 	intrinsics map[string]intrinsicFn
 
 	nodeSeq     int
@@ -244,6 +245,7 @@ func NewEngine(P *Program, cfg Config) (*Engine, error) {
 	e.initDone = map[*ssa.Package]bool{}
 	e.initBusy = map[*ssa.Package]bool{}
 	e.redirects = map[string]*ssa.Function{}
+	e.resolved = map[*ssa.Function]*calleeRes{}
 	e.intrinsics = map[string]intrinsicFn{}
 	e.funcsSeen = map[*ssa.Function]bool{}
 	e.stubsHit = map[string]bool{}
